@@ -6,7 +6,7 @@ import "go/ast"
 const (
 	Cnt0 uint64 = 1 << iota
 	Cnt1
-	Cnt2 // two or more
+	Cnt2    // two or more
 	cntMask = Cnt0 | Cnt1 | Cnt2
 )
 
